@@ -146,7 +146,7 @@ def run_distance(case):
             return bad('C12:distance:wrong-value:' + kwclass,
                        {'witness_case': sub, 'got': got.tolist(), 'scipy_row_by_row': exp.tolist()})
         outs.append(got)
-    r = ok(outcome=digest(outs), batches=n, bs1=int(case['bs'] == 1),
+    r = ok(outcome=digest(outs), batches=n, bs1=int(case.get('bs') == 1),
            scalar_only=int(set(layout) == {'s'}), mixed_widths=int(len(set(layout)) > 1),
            with_kwargs=int(kwclass not in ('plain', 'callable')), callable_metric=int(kwclass == 'callable'))
     r.update(evals=n, distinct=len(seen))
@@ -170,7 +170,7 @@ def distance_cases(ctx):
                     for bs in ([1, 2, 3, 'all'] if q else [1, 2, 3, 4, 'all']):
                         cases.append({'kind': 'distance', 'path': path, 'obsform': form, 'layout': layout,
                                       'obs': obs, 'metric': metric, 'dtype': dtype, 'bs': bs, 'grid': grid,
-                                      'stride': 0 if (q or (m >= 5 and bs != 1)) else 1})
+                                      'stride': 0 if (q or bs == 4 or (m >= 5 and bs != 1)) else 1})
     return cases
 
 
@@ -212,8 +212,27 @@ def _scale_ok(model, m, ref):
     return bool((np.abs(s - ref) <= ATOL_SCALE + RTOL_SCALE * np.abs(ref)).all()), s
 
 
-def _add_round(model, layout, dt, rows, comp, contaminated, sub, refs=None):
+def _classify_scale_failure(layout, dt, rows, prep):
+    """Name the class of a wrong scale after `rows` of the current round: wrong already for one add_data call on a
+    new node / wrong for one call after the node's prehistory `prep` / wrong only because of the split."""
+    m = R.n_cols(layout)
+    ref = R.pop_std([r[:m] for r in rows])
+    model = _build_adaptive(layout)
+    _add(model, layout, dt, rows)
+    if not _scale_ok(model, m, ref)[0]:
+        return 'C12:adaptive:scale-not-population-std'
+    if prep is not None:
+        model = _build_adaptive(layout)
+        prep(model)
+        _add(model, layout, dt, rows)
+        if not _scale_ok(model, m, ref)[0]:
+            return 'C12:adaptive:scale-contaminated-by-earlier-data'
+    return 'C12:adaptive:scale-depends-on-partition'
+
+
+def _add_round(model, layout, dt, rows, comp, prep, sub, refs=None):
     """add_data calls of one round with the scale oracle after each; -> violation result or None.
+    prep: None for a new node, else a function replaying the node's prehistory (only used to classify a failure).
     refs: optional cache {k: np.std(first k rows)} shared between the compositions of one data set."""
     m = R.n_cols(layout)
     k = 0
@@ -228,12 +247,7 @@ def _add_round(model, layout, dt, rows, comp, contaminated, sub, refs=None):
                 refs[k] = ref
         good, s = _scale_ok(model, m, ref)
         if not good:
-            if j > 0:
-                sig = 'C12:adaptive:scale-depends-on-partition'
-            elif contaminated:
-                sig = 'C12:adaptive:scale-contaminated-by-earlier-data'
-            else:
-                sig = 'C12:adaptive:scale-not-population-std'
+            sig = _classify_scale_failure(layout, dt, rows[:k], prep)
             return bad(sig, {'witness_case': sub, 'after_call': j, 'rows_so_far': k,
                              'scale': np.asarray(s).tolist() if s is not None else None, 'np_std': ref.tolist()})
     return None
@@ -297,7 +311,8 @@ def run_partition(case):
             model['d'].init_state()     # what the constructor does; a single-sub-case replay starts from a new model
             _pre(model, layout, dt, pre)
             sub = {'kind': 'partition', 'layout': layout, 'dtype': case['dtype'], 'pre': pre, 'rows': rows, 'comp': comp}
-            v = _add_round(model, layout, dt, rows, comp, pre != 'fresh', sub, refs)
+            v = _add_round(model, layout, dt, rows, comp,
+                           None if pre == 'fresh' else (lambda mm: _pre(mm, layout, dt, pre)), sub, refs)
             evals += 1
             if v:
                 return v
@@ -412,9 +427,10 @@ def _transition(conf, hist, op, before):
     model = _build_adaptive(layout)
     _replay_ops(model, layout, dt, hist)
     r_before = _n_rounds(hist)
+    prep = (lambda mm: _replay_ops(mm, layout, dt, hist)) if hist else None
     if op[0] == 'round':
         rows, comp = op[1], op[2]
-        v = _add_round(model, layout, dt, rows, comp, bool(hist), sub)
+        v = _add_round(model, layout, dt, rows, comp, prep, sub)
         if v:
             return v, None, None
         ref = R.pop_std([r[:m] for r in rows])
@@ -440,7 +456,7 @@ def _transition(conf, hist, op, before):
                 return bad('C12:adaptive:newest-distance-not-scaled-euclidean',
                            {'witness_case': sub, 'got': oa[:, -1].tolist(), 'expected': exp.tolist()}), None, None
     elif op[0] == 'abort':
-        v = _add_round(model, layout, dt, op[1], [len(op[1])], bool(hist), sub)
+        v = _add_round(model, layout, dt, op[1], [len(op[1])], prep, sub)
         if v:
             return v, None, None
         model['d'].init_adaptation_round()
@@ -463,8 +479,8 @@ def _transition(conf, hist, op, before):
     _add(model, layout, dt, probe)
     good, s = _scale_ok(model, m, R.pop_std(probe))
     if not good:
-        return bad('C12:adaptive:scale-contaminated-by-earlier-data',
-                   {'witness_case': sub, 'probe_rows': probe, 'scale': np.asarray(s).tolist(),
+        sig = _classify_scale_failure(layout, dt, probe, lambda mm: _replay_ops(mm, layout, dt, hist + [op]))
+        return bad(sig, {'witness_case': sub, 'probe_rows': probe, 'scale': np.asarray(s).tolist(),
                     'np_std': R.pop_std(probe).tolist()}), None, None
     return None, dg, after
 
